@@ -89,7 +89,7 @@ EVENTS = list(INITS) + GFF_EVENTS + GTF_EVENTS + ["R", "P"]          # R = reope
 
 
 # quick leaves out events that have a close relative in the alphabet (A:plain is subsumed by A:mark)
-QUICK_SKIP = {"U:B4:warning", "U:B1:create_unique", "U:G3:warning", "U:G3:create_unique", "A:plain", "U:B6:replace"}
+QUICK_SKIP = {"U:B3:warning", "U:B1:create_unique", "U:G3:warning", "U:G3:create_unique", "A:plain", "U:B6:replace"}
 
 
 def depth_of(tier):
@@ -149,6 +149,11 @@ def _mark_parent(parent, child):
     return parent
 
 
+def _mark_child(parent, child):
+    child.attributes["marked"] = ["under-" + parent.id]
+    return child
+
+
 def _set_parent(parent, child):
     child.attributes["Parent"] = [parent.id]
     return child
@@ -176,7 +181,7 @@ def apply_real(ev, db, path, wdir):
     elif ev == "A:plain":
         db.add_relation("g1", "p1", 3)
     elif ev == "A:mark":
-        db.add_relation("m1", "e1", 7, parent_func=_mark_parent)              # the callback rewrites the PARENT
+        db.add_relation("m1", "e1", 7, parent_func=_mark_parent, child_func=_mark_child)      # both callbacks: parent AND child are rewritten
     elif ev == "A:rewrite":
         db.add_relation("e1", "exon_1", 1, child_func=_set_parent)
     elif ev == "A:unknown":
@@ -207,6 +212,7 @@ def apply_model(ev, model):
     elif ev == "A:mark":
         model.add_relation("m1", "e1", 7)
         model.feats["m1"]["attrs"]["marked"] = {"by-e1"}
+        model.feats["e1"]["attrs"]["marked"] = {"under-m1"}
     elif ev == "A:rewrite":
         model.add_relation("e1", "exon_1", 1, set_parent_attr=True)
 
